@@ -277,13 +277,16 @@ def run_mibdump(scn):
                 V('C20.1-exit-code', 'exit code 70 (software error) in a fault-free run: %s' % err[-200:].replace('\n', ' | '), what='software-error')
             # report categories
             if not quiet and code in (0, 79):
-                cats = {'compiled': 'reated/updated MIBs', 'borrowed': 'borrowed', 'untouched': 'Up to date MIBs', 'missing': 'Missing source MIBs',
-                        'unprocessed': 'Ignored MIBs', 'failed': 'Failed MIBs'}
+                # the six category lines of the report, recognised by their labels at the start of a line (the report may
+                # carry other lines as well)
+                cats = {'compiled': r'(?:Would be c|C)reated/updated MIBs', 'borrowed': r'Pre-compiled MIBs (?:Would be )?borrowed', 'untouched': r'Up to date MIBs',
+                        'missing': r'Missing source MIBs', 'unprocessed': r'Ignored MIBs', 'failed': r'Failed MIBs'}
                 lines = {}
                 for line in err.replace('\r', '').split('\n'):
                     for st, tag in cats.items():
-                        if tag in line and ':' in line:
-                            lines[st] = line.split(':', 1)[1]
+                        m_ = re.match(r'\s*%s\s*:(.*)$' % tag, line)
+                        if m_ and st not in lines:
+                            lines[st] = m_.group(1)
                 for m, s in sorted(R.items()):
                     s = str(s)
                     for st in cats:
